@@ -95,10 +95,17 @@ def first_chain_withdrawn(v, ref, depth=0):
     return ch[0][3][1] == 0 or first_chain_withdrawn(v, ch[0][2], depth + 1)
 
 
+def seg_rows(v, s):
+    """table rows of a segment; a Z-segment has no table: its positions are plain text fields"""
+    if s.startswith('Z'):
+        return tuple(('%s_%d' % (s, i), i, ('leaf', None, 'ST', None, None, -1), (0, -1)) for i in range(1, 10))
+    return T.seg_fields(v, s)
+
+
 def describe(case):
     """-> dict with the names along the path and the model position"""
     v, s = case['v'], case['s']
-    rows = T.seg_fields(v, s)
+    rows = seg_rows(v, s)
     fname, i, fref, card = rows[case['fi'] % len(rows)]
     d = {'fname': fname, 'i': i, 'fref': fref, 'cname': None, 'j': 1, 'sname': None, 'k': 1, 'leaf_dt': lit.first_leaf_dt(T, v, fref),
          'withdrawn': card[1] == 0}
@@ -154,7 +161,7 @@ def check(case, acc=None):
             m.msh.msh_7 = '20200101'
             m.msh.msh_9 = S.msh9_text(v, case['m'], R.DEFAULT_EC)
             msh_line = m.msh.to_er7()
-            groups = group_chain(T.message_ref(v, case['m']), s)
+            groups = [] if s.startswith('Z') else group_chain(T.message_ref(v, case['m']), s)
             root = m
         else:
             seg = core.Segment(s, version=v, validation_level=level)
@@ -170,7 +177,7 @@ def check(case, acc=None):
             return root
 
         # ---- earlier writes at other paths (old content)
-        rows = T.seg_fields(v, s)
+        rows = seg_rows(v, s)
         for (pfi, pval) in case['pre']:
             pname, pi, pref, _ = rows[pfi % len(rows)]
             if pi == d['i'] or (s == 'MSH'):
@@ -381,12 +388,13 @@ def cases(draw, versions, mcells):
         segs = unique_segments(v, m)
         if not segs:
             root = 'segment'
+    zseg = draw(st.sampled_from([None] * 7 + ['ZXX', 'ZIN']))      # a Z-segment: accepted by every message, no table of its own
     if root == 'segment':
         v = draw(st.sampled_from(versions))
-        s = draw(st.sampled_from([x for x in T.segments(v) if x != 'MSH']))
+        s = zseg or draw(st.sampled_from([x for x in T.segments(v) if x != 'MSH']))
         m = None
     else:
-        s = draw(st.sampled_from(segs))
+        s = zseg or draw(st.sampled_from(segs))
     case = {'root': root, 'v': v, 's': s, 'level': draw(st.sampled_from([2, 2, 1])), 'fi': draw(st.integers(0, 60)),
             'ci': draw(st.integers(0, 30)), 'si': draw(st.integers(0, 12)), 'depth': draw(st.sampled_from([1, 2, 3, 3])),
             'pre': draw(st.lists(st.tuples(st.integers(0, 60), st.integers(0, 3)), max_size=2)),
